@@ -79,6 +79,56 @@ pub fn run(order: &str, cfg: &str, bytes: &[u8], wd: Rc<dyn Watchdog>) -> String
     }
 }
 
+/// the layout itself (None: the analysis returned errors)
+pub fn run_layout(order: &str, cfg: &str, bytes: &[u8]) -> Option<StorageLayout> {
+    set_order(order);
+    let contract = Contract::new(bytes.to_vec(), Chain::Ethereum { version: EthereumVersion::Shanghai });
+    let res = sle::new(contract, vm::parse_cfg(cfg), tc::Config::default(), lazy()).analyze();
+    set_order("natural");
+    res.ok()
+}
+
+/// prefix code of an `AbiType` as natural numbers (the pipeline table; `Props/Program.lean` has the
+/// same function on the model's type)
+pub fn abi_code(t: &AbiType, out: &mut Vec<String>) {
+    let o = |x: &Option<usize>| x.unwrap_or(0).to_string();
+    match t {
+        AbiType::Any => out.push("0".into()),
+        AbiType::Number { size } => out.extend(["1".into(), o(size)]),
+        AbiType::UInt { size } => out.extend(["2".into(), o(size)]),
+        AbiType::Int { size } => out.extend(["3".into(), o(size)]),
+        AbiType::Address => out.push("4".into()),
+        AbiType::Selector => out.push("5".into()),
+        AbiType::Function => out.push("6".into()),
+        AbiType::Bool => out.push("7".into()),
+        AbiType::Array { size, tp } => {
+            out.extend(["8".into(), format!("{}", size.0)]);
+            abi_code(tp, out);
+        }
+        AbiType::Bytes { length } => out.extend(["9".into(), o(length)]),
+        AbiType::Bits { length } => out.extend(["10".into(), o(length)]),
+        AbiType::DynArray { tp } => {
+            out.push("11".into());
+            abi_code(tp, out);
+        }
+        AbiType::DynBytes => out.push("12".into()),
+        AbiType::Mapping { key_type, value_type } => {
+            out.push("13".into());
+            abi_code(key_type, out);
+            abi_code(value_type, out);
+        }
+        AbiType::Struct { elements } => {
+            out.extend(["14".into(), elements.len().to_string()]);
+            for e in elements {
+                out.push(e.offset.to_string());
+                abi_code(&e.typ, out);
+            }
+        }
+        AbiType::InfiniteType => out.push("15".into()),
+        AbiType::ConflictedType { .. } => out.push("16".into()),
+    }
+}
+
 pub fn eval(payload: &str) -> String {
     let t: Vec<&str> = payload.split_whitespace().collect();
     let bytes = util::hex_to_bytes(t[2]);
@@ -343,6 +393,7 @@ pub fn pipeline_programs(seed: u64, family: &str, n: usize, emit: &mut dyn FnMut
             5 if r.chance(1, 2) => ("30000000,10,50,250,394,0".to_string(), crate::fam::idiom::mask_chain_program(&mut r)),
             5 if r.chance(1, 2) => crate::fam::idiom::near_limit_program(&mut r),
             3 | 4 if r.chance(1, 5) => crate::fam::idiom::near_limit_program(&mut r),
+            4 if r.chance(1, 3) => ("30000000,10,50,250,394,0".to_string(), crate::fam::idiom::shared_fields_program(&mut r)),
             6 if r.chance(1, 4) => ("30000000,10,50,250,394,0".to_string(), crate::fam::idiom::repeated_motif_program(&mut r)),
             6 if r.chance(1, 2) => ("30000000,10,50,250,394,0".to_string(), crate::fam::idiom::mixed_lookalike_program(&mut r)),
             7 if r.chance(1, 3) => ("30000000,10,50,250,394,0".to_string(), crate::fam::idiom::hashed_literal_program(&mut r)),
